@@ -5,6 +5,7 @@ package grid
 // in request order, duplicates preserved; the empty blob is never missing.
 
 import (
+	"context"
 	"fmt"
 	"strings"
 	"testing"
@@ -306,4 +307,94 @@ func TestC10Backend(t *testing.T) {
 		rep.Violate("C14 handler panic during C10", p, nil)
 	}
 	rep.Sample(map[string]interface{}{"legend": "L local, B backend only, a absent, X in backend but over max_proxy_blob_size, S in backend with another size", "patterns": 2 * total})
+}
+
+// TestC10Limits: presence does not depend on the upload limit. A blob that is
+// larger than the configured max_blob_size can be in the cache (the directory
+// was written with a higher limit and the server restarted with a lower one,
+// or the blob was fetched from the backend, which only max_proxy_blob_size
+// limits): FindMissingBlobs must report it present, in every position of the
+// list, and an absent digest of the same size missing.
+func TestC10Limits(t *testing.T) {
+	mode := vlib.Param("MODE", "zstd")
+	rep := vlib.NewReport("C10", "E4:limits/"+mode)
+	defer rep.Write()
+	sizes := []int{100, 999, 1000, 1001, 5000}
+	for _, how := range []string{"restart-with-lower-limit", "fetched-from-backend"} {
+		for _, limit := range []int64{1000, 1} {
+			var f *fx
+			var items []c10Digest
+			px := vlib.NewFakeProxy()
+			switch how {
+			case "restart-with-lower-limit":
+				f0 := newFx(fxOpts{mode: mode, validateAC: true, keepDir: true})
+				for _, n := range sizes {
+					d := vlib.Bytes(fmt.Sprintf("c10lim/%s/%s/%d/%d", mode, how, limit, n), n, false)
+					h := vlib.Sha(d)
+					if r := f0.upload(upReq{path: "bs", hash: h, size: int64(n), wire: d, abortAfter: -1}); !r.ok {
+						rep.BrokenHarness("upload: %s", r.status)
+						return
+					}
+					items = append(items, c10Digest{d: &pb.Digest{Hash: h, SizeBytes: int64(n)}, what: fmt.Sprintf("P%d", n)})
+				}
+				f0.settle()
+				dir := f0.dir
+				f0.close()
+				f = newFx(fxOpts{mode: mode, validateAC: true, dir: dir, maxBlob: limit})
+			default:
+				f = newFx(fxOpts{mode: mode, validateAC: true, maxBlob: limit, proxy: px})
+				for _, n := range sizes {
+					d := vlib.Bytes(fmt.Sprintf("c10lim/%s/%s/%d/%d", mode, how, limit, n), n, false)
+					h := vlib.Sha(d)
+					st := d
+					if mode == "zstd" {
+						st = vlib.EncodeCasBlob(d, 1<<20, true)
+					}
+					px.Set(cache.CAS, h, st, int64(n))
+					rc, _, err := f.cache.Get(context.Background(), cache.CAS, h, int64(n), 0)
+					if rc == nil || err != nil {
+						rep.BrokenHarness("backend fetch of %d bytes failed: %v", n, err)
+						return
+					}
+					_ = readAllClose(rc)
+					items = append(items, c10Digest{d: &pb.Digest{Hash: h, SizeBytes: int64(n)}, what: fmt.Sprintf("P%d", n)})
+				}
+				f.settle()
+				// the backend forgets everything: presence is local from here on
+				for _, it := range items {
+					px.Delete(cache.CAS, it.d.Hash)
+				}
+			}
+			cfg := fmt.Sprintf("mode=%s max_blob_size=%d blobs %s", mode, limit, how)
+			var absent []c10Digest
+			for _, n := range sizes {
+				a := vlib.Bytes(fmt.Sprintf("c10lim/absent/%s/%s/%d/%d", mode, how, limit, n), n, false)
+				absent = append(absent, c10Digest{d: &pb.Digest{Hash: vlib.Sha(a), SizeBytes: int64(n)}, missing: true, what: fmt.Sprintf("a%d", n)})
+			}
+			// guard: the blobs really are held locally
+			for _, it := range items {
+				if ok, _ := f.cache.Contains(context.Background(), cache.CAS, it.d.Hash, it.d.SizeBytes); !ok {
+					rep.BrokenHarness("%s: blob of %d bytes is not held locally", cfg, it.d.SizeBytes)
+					return
+				}
+			}
+			c10Call(rep, f, cfg, fmt.Sprintf("limits %s/%d all-present", how, limit), items)
+			c10Call(rep, f, cfg, fmt.Sprintf("limits %s/%d all-absent", how, limit), absent)
+			for i := range items {
+				c10Call(rep, f, cfg, fmt.Sprintf("limits %s/%d single", how, limit), []c10Digest{items[i]})
+				c10Call(rep, f, cfg, fmt.Sprintf("limits %s/%d single", how, limit), []c10Digest{absent[i]})
+				mixed := append(append([]c10Digest{}, absent[:i]...), items[i])
+				mixed = append(mixed, absent[i:]...)
+				c10Call(rep, f, cfg, fmt.Sprintf("limits %s/%d mixed", how, limit), mixed)
+				mixed2 := append(append([]c10Digest{}, items[:i]...), absent[i])
+				mixed2 = append(mixed2, items[i:]...)
+				c10Call(rep, f, cfg, fmt.Sprintf("limits %s/%d mixed", how, limit), mixed2)
+			}
+			for _, p := range f.takePanics() {
+				rep.Violate("C14 handler panic during C10 limits", p, nil)
+			}
+			f.close()
+		}
+	}
+	rep.Sample(map[string]interface{}{"mode": mode, "sizes": sizes, "limits": []int{1000, 1}})
 }
